@@ -255,6 +255,14 @@ def step (pool : Pool) (cmd : Json) : Pool × Json :=
         | some a => (pool.set h a, .str "$ok")
         | none => (pool, .str "$raise:type")
       | _, _, _, _, _ => (pool, err "bad mkhist")
+    | "$framehyp", [bs, feat, .arr rows] =>
+      -- executable hypotheses of the C14 theorems on a real frame: the axes resolve, are valid, every column evaluates
+      match binSpecsOf? bs, (match feat with | .arr l => l.mapM columnOf? | _ => none), rows.mapM datumOf? with
+      | some bs, some feature, some rows =>
+        match axesOf bs feature with
+        | some axes => (pool, .bool (axesValid axes && qtysOk (mkTree axes) rows))
+        | none => (pool, .bool false)
+      | _, _, _ => (pool, err "bad framehyp")
     | "$view", [h, what, lo, hi] =>
       let optRat (j : Json) : Option (Option Rat) := match j with | .null => some none | .num q => some (some q) | _ => none
       match (strOf? h).bind pool.get?, strOf? what, optRat lo, optRat hi with
